@@ -446,7 +446,14 @@ def t_astensor(T):
 
 
 def tasks(tier):
-    return [("numpy-jax-formulas", t_formulas), ("pytorch-forwarding", t_torch), ("tensorflow-forwarding", t_tensorflow), ("probability-wrappers", t_probability), ("astensor-precision-path", t_astensor)]
+    return [("numpy-jax-formulas", t_formulas), ("pytorch-forwarding", t_torch), ("tensorflow-forwarding", t_tensorflow), ("probability-wrappers", t_probability), ("astensor-precision-path", t_astensor),
+            # "x {64b, 32b}": what a backend computes must not depend on which other backend objects have been constructed
+            ("backend-lifecycle", _lifecycle)]
+
+
+def _lifecycle(T):
+    from .BK_backend_ops import t_lifecycle
+    t_lifecycle(T)
 
 
 # ---------------------------------------------------------------- native replay
@@ -455,6 +462,9 @@ def replay(r):
     import pyhf
     name, meta = r["name"], r.get("meta") or {}
     bad = {}
+    if meta.get("lifecycle"):
+        from .BK_backend_ops import replay_lifecycle
+        return replay_lifecycle(r)
     try:
         if "astensor" in name and meta.get("backend"):
             pyhf.set_backend(meta["backend"], precision=meta["precision"])
